@@ -544,6 +544,41 @@ func c15Run(ctx *core.Ctx) {
 			c15Judge(ctx, "path", simpleManifest([]string{s + ".fga"}), true)
 		})
 	}
+	// segment sequences: every path of one to four segments drawn from a menu of look-alikes of the parent segment (names with
+	// leading, trailing and inner dot runs, encoded dots) joined by one of four separator spellings - paths of 11 to 30
+	// characters that the per-character enumeration above cannot reach, with several dot runs in one path
+	{
+		segs := []string{"..", "...", "a..", "..a", "v1..2", "a", ".", "%2e%2e", "%2E.", ""}
+		seps := []string{"/", "\\", "%2f", "%5C"}
+		var rec func(cur []string)
+		k := 1 << 26
+		rec = func(cur []string) {
+			if len(cur) > 0 {
+				for _, sep := range seps {
+					k++
+					if !ctx.Mine(k) {
+						continue
+					}
+					ctx.Eval(1)
+					e := strings.Join(cur, sep) + sep + "m.fga"
+					c15Judge(ctx, "segments", simpleManifest([]string{e}), true)
+					ctx.Flag("c15:segment-sequences")
+					if u, _ := refUnsafe(e); u {
+						ctx.Nontrivial("unsafe:" + e)
+					} else {
+						ctx.Nontrivial("safe:" + e)
+					}
+				}
+			}
+			if len(cur) == 4 || ctx.Expired() {
+				return
+			}
+			for _, sg := range segs {
+				rec(append(cur, sg))
+			}
+		}
+		rec(nil)
+	}
 	// YAML presentations x a path set with every kind of entry
 	if ctx.Shard == 0 {
 		sets := [][]string{
@@ -577,7 +612,7 @@ func init() {
 	core.Register(&core.Check{
 		ID: "C15",
 		Rule: "every path string of length <= 5 (quick) / <= 6 (thorough, plus length 7 with one of . % \\ in the middle) over the alphabet { . / \\ % 2 5 e E f F c C + a g }, bare and with .fga / %2Efga / %2efga appended, " +
-			"as single entry and (length <= 3) as second and third entry behind good ones, in a single-quoted block-sequence manifest; 16 entry sets x 15 YAML presentations (block/flow, plain/single/double/folded/literal scalars, key order, indentation, comments, CRLF, document start, anchors); " +
+			"as single entry and (length <= 3) as second and third entry behind good ones, in a single-quoted block-sequence manifest; every sequence of 1-4 segments from a menu of 10 parent-segment look-alikes (.., ..., a.., ..a, v1..2, a, ., %2e%2e, %2E., empty) x 4 separator spellings; 16 entry sets x 15 YAML presentations (block/flow, plain/single/double/folded/literal scalars, key order, indentation, comments, CRLF, document start, anchors); " +
 			"25 malformed manifests (missing/wrong-typed/duplicated keys, non-string entries). Oracle: own percent decoder and segment analysis; positions from the generator's offsets; in multi-entry manifests an entry has an error exactly if it is rejected alone. " +
 			"states = outcome classes, non-trivial = distinct path strings",
 		Assume: []string{
